@@ -107,8 +107,8 @@ class E(opscalar.ScalarOp):
         tau, T1, T2, g = common.map_arrays([tau, T1, T2, g])
         # integer arrays (relaxation-time maps) would overflow in the powers of the derivative formulas
         tau, T1, T2, g = [
-            np.asarray(arr, dtype=float)
-            if np.ndim(arr) > 0 and np.asarray(arr).dtype.kind in "iub"
+            np.asarray(arr, dtype=float)[()]
+            if isinstance(arr, (np.ndarray, np.generic)) and arr.dtype.kind in "iub"
             else arr
             for arr in (tau, T1, T2, g)
         ]
